@@ -78,6 +78,10 @@ CHECKS = {
   "runtime monitoring: reflective generators over all API message types with proto.Equal + presence-aware oracle and cross-check against the reference protobuf implementation; recycled-object decode patterns; concurrent compressor round trips under the race detector; snapshot/backup stream framing with adversarial short-read plans",
   "Every generated message survives the registered codec into fresh and recycled objects (both production recycling patterns); gzip/snappy/zstd return the original bytes under 16-64 goroutines sharing the pools; command sequences written to snapshot files and streamed through the real Writer/Reader (cuts aimed inside length prefixes and snappy chunk headers, real gRPC for a share of the streams) are read back with the same boundaries.",
   "One known finding in generated code (pooled Command keeps an empty range_end; latent, no production path decodes into pooled Commands). Hostile wire input is C16's subject."),
+ "C05": ("exploration",
+  "runtime monitoring: leader + follower clusters running the real replication stack in one process; every leader write issued and recorded by the harness; follower sandwich samples (index, dump, index) judged against the reference model's leader state at that index; bounded convergence; path counters from interceptors on the leader's replication server",
+  "Scenarios (log tailing, snapshot recovery after leader log compaction, writes during recovery, worker restart, engine restart, slow follower apply with proposal time-outs, table create/delete) with non-idempotent leader commands: every usable follower sample must equal the leader state at the recorded index, the index never moves backwards, the follower reaches the leader's final state and table set after the leader stops; the evidence shows how many Replicate calls, USE_SNAPSHOT answers and snapshot streams each run really contained.",
+  "Single-node leader and follower clusters in the quick tier; a leader write that fails makes the run inconclusive; convergence = bounded progress (60 s, re-checked at 180 s); follower MaxInMemLogSize >= 1 MiB (must exceed the worker's 256 KiB proposals)."),
 }
 
 NOT_YET = {}
